@@ -326,6 +326,19 @@ func (b *Batch) SplitRecord(i int, recs []opencdc.Record) {
 	)
 }
 
+// splittable reports whether the active record at index i can be passed to
+// SplitRecord: it needs a non-nil original source position, or an existing
+// split run to attach the new pieces to.
+func (b *Batch) splittable(i int) bool {
+	if activeIndices := b.activeRecordIndices(); activeIndices != nil {
+		i = activeIndices[i]
+	}
+	if b.positions[i] != nil {
+		return true
+	}
+	return b.runs != nil && b.runs[i] != nil
+}
+
 func (b *Batch) setFlagNoErr(f RecordFlag, i int, j ...int) {
 	// TODO: we should not have to recalculate the active record indices every time.
 	activeIndices := b.activeRecordIndices()
